@@ -402,3 +402,125 @@ Lemma dstep_none_keeps pol cc hasinit attempts fl ps resps d i ii cm r :
   classify r (rf_ctx fl) (rf_closed fl) = ModeNone ->
   d_acts (dstep pol cc hasinit attempts fl ps resps d i) = d_acts d.
 Proof. intros Ep Er CL. unfold dstep. rewrite Ep, Er, CL. reflexivity. Qed.
+
+(** ---- the policy's bound is a bound on rounds (C28) ----
+    Every round starts with its redirect count at 0 and its delay at -1 ([rounds]); a round without redirect that
+    queued a retry waits and increments [attempts]; a round that saw a redirect does neither.  When the policy
+    declines at [attempts] the round's delay stays -1, whatever the servers answer. *)
+Lemma dstep_delay_declined pol cc hasinit attempts fl ps resps d i :
+  (forall r, p_delay pol attempts r < 0) ->
+  d_delay (dstep pol cc hasinit attempts fl ps resps d i) = d_delay d.
+Proof.
+  intros Hd. unfold dstep. destruct (nth_error ps i) as [[ii cm]|]; [|reflexivity].
+  destruct (nth_error resps i) as [r|]; [|reflexivity]. cbv zeta.
+  assert (E : (p_delay pol attempts r <? 0) = true) by (apply Z.ltb_lt; apply Hd).
+  destruct (classify r (rf_ctx fl) (rf_closed fl)); cbn [andb d_delay].
+  - reflexivity.
+  - repeat match goal with |- context [if ?b then _ else _] => destruct b end; reflexivity.
+  - repeat match goal with |- context [if ?b then _ else _] => destruct b end; reflexivity.
+  - rewrite E, orb_true_r. reflexivity.
+Qed.
+
+Lemma doresultfn_delay_declined pol cc hasinit attempts fl ps resps acts redirects delay results :
+  (forall r, p_delay pol attempts r < 0) ->
+  d_delay (doresultfn pol cc hasinit attempts fl ps resps acts redirects delay results) = delay.
+Proof.
+  intros Hd. unfold doresultfn.
+  assert (G : forall l st, d_delay (fold_left (dstep pol cc hasinit attempts fl ps resps) l st) = d_delay st).
+  { induction l as [|x l IH]; intros st; cbn [fold_left]; [reflexivity|]. rewrite IH. now apply dstep_delay_declined. }
+  now rewrite G.
+Qed.
+
+Lemma do_group_delay_declined pol srv hasinit attempts fl st ag :
+  (forall r, p_delay pol attempts r < 0) -> r_delay (do_group pol srv hasinit attempts fl st ag) = r_delay st.
+Proof.
+  intros Hd. destruct ag as [a g]. unfold do_group.
+  set (st1 := match rg_cmds g with [] => st | _ => _ end).
+  assert (E1 : r_delay st1 = r_delay st).
+  { unfold st1. destruct (rg_cmds g) as [|p ps]; [reflexivity|].
+    destruct (exchange_on srv a (r_cnt st) (p :: ps)) as [rs cn]. cbn [r_delay]. now apply doresultfn_delay_declined. }
+  destruct (rg_asks g) as [|p ps]; [exact E1|].
+  destruct (exchange_on srv a (r_cnt st1) (p :: ps)) as [rs cn]. cbn [r_delay]. rewrite <- E1. now apply doresultfn_delay_declined.
+Qed.
+
+Lemma fold_groups_delay_declined pol srv hasinit attempts fl : forall m st,
+  (forall r, p_delay pol attempts r < 0) ->
+  r_delay (fold_left (do_group pol srv hasinit attempts fl) m st) = r_delay st.
+Proof.
+  induction m as [|ag m IH]; intros st Hd; cbn [fold_left]; [reflexivity|].
+  rewrite IH by exact Hd. now apply do_group_delay_declined.
+Qed.
+
+(** a round run at an attempt number the policy declines ends the call unless a redirect was seen in it *)
+Lemma rounds_declined_round_ends (c : bcfg) srv hasinit f k m attempts redirects asg cn sends :
+  (forall r, p_delay (bc_policy c) attempts r < 0) ->
+  let st := fold_left (do_group (bc_policy c) srv hasinit attempts (bc_flags c k)) m (mkRstate [] 0 (-1) asg cn []) in
+  r_delay st = -1 /\
+  (r_redirects st = 0%nat ->
+   rounds (S f) c srv hasinit k m attempts redirects asg cn sends
+   = (r_results st, sends ++ map (fun w => (k, w)) (r_sends st), BDone)).
+Proof.
+  intros Hd st. assert (E : r_delay st = -1).
+  { unfold st. rewrite fold_groups_delay_declined by exact Hd. reflexivity. }
+  split; [exact E|]. intro R0. cbn [rounds]. fold st. rewrite R0, E. cbn.
+  destruct (apply_actions (bc_perm c k (r_acts st))); reflexivity.
+Qed.
+
+(** with a redirect limit: the round index of every write is at most (B - 1) + MaxMovedRedirections, where B is
+    an attempt number from which the policy declines — the call makes at most B + MaxMovedRedirections rounds *)
+Lemma rounds_tag_bound (c : bcfg) srv hasinit B :
+  (forall a r, (B <= a)%nat -> p_delay (bc_policy c) a r < 0) -> 0 < bc_max c ->
+  forall fuel k m attempts redirects asg cn sends asg' sends' out,
+  rounds fuel c srv hasinit k m attempts redirects asg cn sends = (asg', sends', out) ->
+  (attempts <= B)%nat -> redirects <= bc_max c ->
+  Z.of_nat k = Z.of_nat attempts - 1 + redirects ->
+  (forall k' w, In (k', w) sends -> Z.of_nat k' <= Z.of_nat B - 1 + bc_max c) ->
+  forall k' w, In (k', w) sends' -> Z.of_nat k' <= Z.of_nat B - 1 + bc_max c.
+Proof.
+  intros Hd Hmax. induction fuel as [|f IH]; intros k m attempts redirects asg cn sends asg' sends' out H Ha Hr Hk Hs.
+  - cbn in H. inversion H; subst. exact Hs.
+  - cbn [rounds] in H.
+    set (st := fold_left (do_group (bc_policy c) srv hasinit attempts (bc_flags c k)) m (mkRstate [] 0 (-1) asg cn [])) in *.
+    assert (Hs' : forall k' w, In (k', w) (sends ++ map (fun w => (k, w)) (r_sends st)) -> Z.of_nat k' <= Z.of_nat B - 1 + bc_max c).
+    { intros k' w Hin. apply in_app_or in Hin. destruct Hin as [Hin|Hin]; [eapply Hs; eauto|].
+      apply in_map_iff in Hin. destruct Hin as [w0 [E _]]. inversion E; subst. lia. }
+    destruct (apply_actions (bc_perm c k (r_acts st))) as [|x m'] eqn:Em.
+    { inversion H; subst. exact Hs'. }
+    destruct (0 <? r_redirects st)%nat.
+    + destruct ((0 <? bc_max c) && (bc_max c <? redirects + 1)) eqn:G.
+      * inversion H; subst. exact Hs'.
+      * eapply IH; [exact H|exact Ha| | |exact Hs'].
+        -- apply andb_false_iff in G. destruct G as [G|G]; [apply Z.ltb_ge in G; lia|apply Z.ltb_ge in G; lia].
+        -- lia.
+    + destruct (0 <=? r_delay st) eqn:G.
+      * apply Z.leb_le in G.
+        assert (Hlt : (attempts < B)%nat).
+        { destruct (le_lt_dec B attempts) as [Hge|Hlt]; [|exact Hlt]. exfalso.
+          assert (E : r_delay st = -1).
+          { unfold st. rewrite fold_groups_delay_declined; [reflexivity|]. intro r. now apply Hd. }
+          lia. }
+        eapply IH; [exact H|lia|exact Hr| |exact Hs']. lia.
+      * inversion H; subst. exact Hs'.
+Qed.
+
+Theorem domulti_rounds_bounded (c : bcfg) srv hasinit m fuel B asg sends out :
+  (1 <= B)%nat -> (forall a r, (B <= a)%nat -> p_delay (bc_policy c) a r < 0) -> 0 < bc_max c ->
+  cluster_domulti fuel c srv hasinit m = (asg, sends, out) ->
+  forall k w, In (k, w) sends -> Z.of_nat k <= Z.of_nat B - 1 + bc_max c.
+Proof.
+  intros HB Hd Hmax H. unfold cluster_domulti in H.
+  eapply (rounds_tag_bound c srv hasinit B Hd Hmax); [exact H|exact HB|lia|reflexivity|].
+  intros k' w [].
+Qed.
+
+(** without a redirect limit the attempt counter is still bounded: a retry round is entered only below B *)
+Lemma rounds_retry_round_below_bound (c : bcfg) srv hasinit B k m attempts asg cn :
+  (forall a r, (B <= a)%nat -> p_delay (bc_policy c) a r < 0) ->
+  let st := fold_left (do_group (bc_policy c) srv hasinit attempts (bc_flags c k)) m (mkRstate [] 0 (-1) asg cn []) in
+  0 <= r_delay st -> (attempts < B)%nat.
+Proof.
+  intros Hd st G. destruct (le_lt_dec B attempts) as [Hge|Hlt]; [|exact Hlt]. exfalso.
+  assert (E : r_delay st = -1).
+  { unfold st. rewrite fold_groups_delay_declined; [reflexivity|]. intro r. now apply Hd. }
+  lia.
+Qed.
